@@ -811,13 +811,14 @@ namespace
     }
     value resize_array_scalar(runtime& runtime, value::cref left, value::cref right)
     {
-        auto i = right.data<d_scalar, size_t>();
-        if (i < 0)
+        // Test the sign before converting: a negative float has no representation as size_t
+        auto size = right.data<d_scalar, float>();
+        if (!(size >= 0))
         {
             runtime.__logmsg(err::NegativeSize(runtime.context_active().current_frame().diag_info_from_position()));
             return {};
         }
-        left.data<d_array>()->resize(i);
+        left.data<d_array>()->resize(static_cast<size_t>(size));
         return {};
     }
     value deleterange_array_array(runtime& runtime, value::cref left, value::cref right)
